@@ -280,7 +280,7 @@ def reader_config():
 
     mod2, _ = parse("nessai/proposal/flowproposal.py")
     fr = find_function(mod2, "resume", cls="FlowProposal")
-    wcatch, wfallback, welif = [], False, False
+    wcatch, wfallback, welif, wremove = [], False, False, False
     found = False
     for n in ast.walk(fr):
         if isinstance(n, ast.If) and unparse(n.test) == "os.path.exists(weights_file)":
@@ -296,6 +296,10 @@ def reader_config():
                 hb = [unparse(s) for s in t.handlers[0].body if not is_logging(s)]
                 if hb in (["self.flow.reload_weights(weights_file + '.old')"],):
                     wfallback = True
+                elif hb in (["self.flow.reload_weights(weights_file + '.old')", "os.remove(weights_file)"],
+                            ["self.flow.reload_weights(weights_file + '.old')", "os.unlink(weights_file)"]):
+                    # the damaged file is removed only after the fallback copy has loaded
+                    wfallback, wremove = True, True
                 elif hb:
                     raise Declined(f"handler body without a rule: {hb}")
             elif [unparse(s) for s in body] == ["self.flow.reload_weights(weights_file)"]:
@@ -317,15 +321,54 @@ def reader_config():
 
     def cl(xs):
         return "[" + "; ".join(xs) + "]"
-    term = (f"{{| rc_wcls := wcls_long; rc_catch1 := {cl(catch1)}; rc_try_old := {'true' if try_old else 'false'}; "
+    # the oracle for torn weights files is the full one (EOFError, OSError, RuntimeError, and
+    # UnpicklingError for a file shorter than the zip magic)
+    term = (f"{{| rc_wcls := wcls_all; rc_catch1 := {cl(catch1)}; rc_try_old := {'true' if try_old else 'false'}; "
             f"rc_wcatch := {cl(wcatch)}; rc_wfallback := {'true' if wfallback else 'false'}; "
-            f"rc_welif_old := {'true' if welif else 'false'} |}}")
+            f"rc_welif_old := {'true' if welif else 'false'}; rc_wremove := {'true' if wremove else 'false'} |}}")
     return term
+
+
+def resume_holder():
+    """Which file the RESUMED sampler checkpoints to: where sampler.resume_file comes from after a resume.
+    -> Coq term of type rholder."""
+    sites = []
+    mod_b, _ = parse("nessai/samplers/base.py")
+    mod_f, _ = parse("nessai/flowsampler.py")
+    todo = [("nessai/samplers/base.py", mod_b, "BaseNestedSampler", ("resume", "resume_from_pickled_sampler")),
+            ("nessai/flowsampler.py", mod_f, "FlowSampler", ("_resume_from_file", "_resume_from_data", "__init__"))]
+    for rel, cls, names in (("nessai/samplers/nestedsampler.py", "NestedSampler", ("resume", "resume_from_pickled_sampler")),
+                            ("nessai/samplers/importancesampler.py", "ImportanceNestedSampler",
+                             ("resume", "resume_from_pickled_sampler"))):
+        m, _ = parse(rel)
+        todo.append((rel, m, cls, names))
+    for rel, mod, cls, names in todo:
+        cnode = find_class(mod, cls)
+        for fn in cnode.body:
+            if isinstance(fn, ast.FunctionDef) and fn.name in names:
+                for n in ast.walk(fn):
+                    tgts = n.targets if isinstance(n, ast.Assign) else [n.target] if isinstance(n, (ast.AugAssign, ast.AnnAssign)) else []
+                    for t in tgts:
+                        if isinstance(t, ast.Attribute) and t.attr == "resume_file":
+                            sites.append((cls, fn.name, unparse(n)))
+                    if isinstance(n, ast.Call) and dotted(n.func) == "setattr" and n.args[1:2] \
+                            and isinstance(n.args[1], ast.Constant) and n.args[1].value == "resume_file":
+                        sites.append((cls, fn.name, unparse(n)))
+    # the constructor path: configure_output joins output and resume_file
+    co = find_function(mod_b, "configure_output", cls="BaseNestedSampler")
+    if "self.resume_file = resume_file" not in unparse(co):
+        raise Declined("configure_output no longer sets self.resume_file = resume_file")
+    if not sites:
+        return "KeepPickled", sites
+    if sites == [("BaseNestedSampler", "resume", "sampler.resume_file = filename")]:
+        # filename is the file _resume_from_file handed over: the resume file or its .old copy
+        return "FollowLoaded", sites
+    raise Declined(f"resume_file is re-assigned on the resume path in a shape without a rule: {sites}")
 
 
 if __name__ == "__main__":
     for f in (lambda: safe_file_dump(True), lambda: safe_file_dump(False), flowmodel_save_weights,
-              importance_save_weights, checkpoint_call, reader_config):
+              importance_save_weights, checkpoint_call, reader_config, resume_holder):
         try:
             print(f())
         except Declined as e:
